@@ -93,7 +93,7 @@ pub fn gen_op(r: &mut Rng, st: &Store, pool: &Pool, cfg: &HistCfg) -> Op {
         },
         88 => if r.chance(1, 2) { NsGetMutSet(pick(r, st, &live, "E", b / 4), pfx, uri) } else { NsEntryOrInsert(pick(r, st, &live, "E", b / 4), pfx, uri) },
         89..=90 => SetText(pick(r, st, &live, "T", b), text(r)),
-        91 => SetComment(pick(r, st, &live, "C", b), if r.chance(1, 4) { "a--b".into() } else { "c".into() }),
+        91 => SetComment(pick(r, st, &live, "C", b), r.pick(&["c", "a--b", "-", "a-", "-a", "a-b-", "--", "", "\u{e9}-", "->", "a--", "--a"]).to_string()),
         92 => SetPiData(pick(r, st, &live, "P", b), if r.chance(1, 2) { Some(text(r)) } else { None }),
         93 => SetAttrValue(pick(r, st, &live, "A", b), text(r)),
         94 => SetNsValue(pick(r, st, &live, "N", b), uri),
@@ -347,6 +347,50 @@ pub fn main_for(pid: &str) {
             }
         }
     }
+    // ---- value setters, exhaustively on one forest that has every kind of node: Comment::set with bodies around the refused
+    // "--" (a hyphen at either end, the empty body), ProcessingInstruction::set_data (None, empty, data), Text::set, each on
+    // every node (a setter called through the wrong *_mut accessor is a no-op).  One call per case.
+    {
+        let mut tmp = Store::new();
+        let pool = make_pool(&mut tmp.xot, &mut tmp.reg, true);
+        let name = pool.names[0];
+        let start = vec![
+            ANode::Doc(vec![ANode::Comment("k".into()),
+                            ANode::Elem { name, ns: vec![], attrs: vec![(pool.attr_names[0], "v".into())],
+                                          kids: vec![ANode::Text("t".into()), ANode::Comment("c".into()), ANode::Pi(pool.pi_names[0], Some("d".into())), ANode::Pi(pool.pi_names[0], None)] }]),
+            ANode::Comment("r".into()),
+        ];
+        let mut probe = Store::new();
+        let _ = make_pool(&mut probe.xot, &mut probe.reg, true);
+        for t in &start { let n = build(&mut probe.xot, &probe.reg, t); probe.learn(n); }
+        probe.refresh();
+        let hs = probe.live_handles();
+        let cfg = HistCfg { steps: 1, refusal_bias: 0, with_clonep: false, with_rmws: false, rmws_pct: 0, clone_pct: 0 };
+        let mut r = base.fork(u64::MAX - 1);
+        let mut idx = 0usize;
+        let mut calls: Vec<Op> = vec![];
+        for a in &hs {
+            for t in ["-", "a-", "-a", "a--b", "", "c", "--", "a-b-", "\u{e9}-"] { calls.push(Op::SetComment(*a, t.to_string())); }
+            calls.push(Op::SetPiData(*a, None));
+            calls.push(Op::SetPiData(*a, Some(String::new())));
+            calls.push(Op::SetPiData(*a, Some("e".into())));
+            calls.push(Op::SetText(*a, "s".into()));
+            calls.push(Op::SetText(*a, String::new()));
+            calls.push(Op::SetAttrValue(*a, "w".into()));
+        }
+        for first in calls {
+            // the call, then the same call again: a refused call that changed something shows on the second one as well
+            let case = format!("v{}", idx);
+            idx += 1;
+            let (tables, init, ops, obs) = run_history(&case, pid, &mut r, &start, Some(vec![first.clone(), first]), &cfg, &mut out, &mut stats, true);
+            let ops_text: Vec<String> = ops.iter().map(op_str).collect();
+            let line = format!("{} {} | {} | {}", case, tables, init, ops_text.join(";"));
+            out.case(&line);
+            stats.case(&line, true);
+            stats.bump("stream.value_setters");
+            out.imp(&format!("{} {}", case, obs));
+        }
+    }
     // ---- xml:id stream (C04, "no accessor hands out a removed node"): the start document is PARSED, so that the parser's
     // xml:id index is filled; after every call xml_id_node is asked for every id and the answers are part of the observation
     if pid == "C04" || pid == "ALL" {
@@ -368,6 +412,7 @@ pub fn main_for(pid: &str) {
 fn run_id_history(case: &str, r: &mut Rng, xml: Option<String>, ops_in: Option<Vec<Op>>, steps: usize, out: &mut Out, stats: &mut Stats) -> Option<(String, String)> {
     let mut st = Store::new();
     let pool = make_pool(&mut st.xot, &mut st.reg, true);
+    let _ = st.reg.prefix(&mut st.xot, "dx");   // the second prefix some start documents bind to the XML namespace name
     let text = match xml {
         Some(t) => t,
         None => {
@@ -392,12 +437,24 @@ fn run_id_history(case: &str, r: &mut Rng, xml: Option<String>, ops_in: Option<V
             let mut tmp = Store::new();
             let _ = make_pool(&mut tmp.xot, &mut tmp.reg, true);
             let root = build(&mut tmp.xot, &tmp.reg, &t);
-            match guard(|| tmp.xot.to_string(root)) { Ok(Ok(s)) => s, _ => { stats.bump("idstream.unserialisable_start"); return None; } }
+            let s = match guard(|| tmp.xot.to_string(root)) { Ok(Ok(s)) => s, _ => { stats.bump("idstream.unserialisable_start"); return None; } };
+            // one start document in four reaches the name xml:id through a second prefix bound to the XML namespace name
+            // (the parser accepts such a binding): alone — the attribute is an xml:id like any other — or next to a real xml:id
+            // on the same element, which is one expanded name twice and must be refused (unique attribute names, C04 / C03)
+            const XMLNS: &str = "http://www.w3.org/XML/1998/namespace";
+            match (r.below(8), s.find(" xml:id=\"")) {
+                (0, Some(at)) => { stats.bump("idstream.second_xml_prefix_alone"); format!("{} xmlns:dx=\"{}\" dx:id=\"{}", &s[..at], XMLNS, &s[at + 9..]) }
+                (1, Some(at)) => { stats.bump("idstream.second_xml_prefix_twice"); format!("{} xmlns:dx=\"{}\" dx:id=\"zz\"{}", &s[..at], XMLNS, &s[at..]) }
+                _ => s,
+            }
         }
     };
     let doc = match guard(|| st.xot.parse(&text)) { Ok(Ok(n)) => n, _ => { stats.bump("idstream.unparsable_start"); return None; } };
     let doc_h = st.learn(doc);
     st.refresh();
+    for (class, what) in validity(&st) {
+        out.fail(case, &format!("parsed-{}", class), &format!("the document parsed from {:?} is not valid: {}", text, what));
+    }
     // the index as the crate reports it right after parsing
     let mut ids: Vec<(String, Handle)> = vec![];
     for n in st.xot.descendants(doc).collect::<Vec<_>>() {
